@@ -31,19 +31,30 @@ Proof.
     apply IH in H. apply set_from_length in E. lia.
 Qed.
 
-Lemma resolve_variants_shape : forall name ctl names src vs,
-  resolve_variants name ctl names src = Some vs ->
-  List.length vs = List.length src
-  /\ forall v, In v vs -> List.length (v_vals v) = List.length ctl /\ zlen (v_name v) <= 32
-                          /\ exists key, v_name v = name ++ 46 :: key.
+Lemma resolve_variants_shape : forall name ctl names src,
+  (List.length (resolve_variants name ctl names src) <= List.length src)%nat
+  /\ forall v, In v (resolve_variants name ctl names src) ->
+       List.length (v_vals v) = List.length ctl /\ zlen (v_name v) <= 32
+       /\ exists key, v_name v = name ++ 46 :: key.
 Proof.
-  intros name ctl names src; induction src as [|[key pairs] r IH]; intros vs H; simpl in H.
-  - inversion H; subst. split; [reflexivity | intros v []].
-  - destruct (zlen (name ++ 46 :: key) <=? 32) eqn:L; [|discriminate].
-    destruct (apply_pairs names ctl pairs) as [vals|] eqn:E; [|discriminate].
-    destruct (resolve_variants name ctl names r) as [vs'|] eqn:E2; [|discriminate].
-    inversion H; subst. destruct (IH vs' eq_refl) as [I1 I2]. split; [simpl; lia|].
+  intros name ctl names src; induction src as [|[key pairs] r IH]; simpl.
+  - split; [lia | intros v []].
+  - destruct IH as [I1 I2].
+    destruct (zlen (name ++ 46 :: key) <=? 32) eqn:L; [|split; [simpl; lia | intros v []]].
+    destruct (apply_pairs names ctl pairs) as [vals|] eqn:E; [|split; [simpl; lia | intros v []]].
+    split; [simpl; lia|].
     intros v [Hv|Hv].
     + subst v. simpl. split; [apply apply_pairs_length in E; exact E|]. split; [lia | exists key; reflexivity].
     + apply I2; exact Hv.
+Qed.
+
+(* when every variant is valid nothing is dropped *)
+Lemma resolve_variants_all : forall name ctl names src,
+  forallb (fun kp => (zlen (name ++ 46 :: fst kp) <=? 32)
+                     && match apply_pairs names ctl (snd kp) with Some _ => true | None => false end) src = true ->
+  List.length (resolve_variants name ctl names src) = List.length src.
+Proof.
+  intros name ctl names src; induction src as [|[key pairs] r IH]; intros H; simpl in *; [reflexivity|].
+  apply andb_true_iff in H. destruct H as [H1 H2]. apply andb_true_iff in H1. destruct H1 as [L A].
+  rewrite L. destruct (apply_pairs names ctl pairs); [|discriminate]. simpl. rewrite IH by exact H2. reflexivity.
 Qed.
